@@ -6,6 +6,7 @@ Plugin (see harness/README.md).  Ops (file lines inside one protocol line are TA
   K n <name> ri (re)      Metadata.Key(...).serialize()      KD\t<text>   Metadata.Key.deserialize
   MS\tK ...\tV<line>...   Metadata(...).serialize()          MD\t<line>.. Metadata.deserialize
   SS\t<line>...           SDFile.deserialize + SDRecord.deserialize (names, header/ctab/metadata lines)
+  SF\t<line>...           SDFile.deserialize and every record read completely (header, get_structure(), metadata)
   HS\t<9 fields>          Header.serialize                   HD\tl0\tl1\tl2  Header.deserialize
 The oracle never looks at the Lean model: it writes with the real code, checks the standard
 columns of every V2000 line, reads back with the real code and compares with what was written.
@@ -41,15 +42,18 @@ ASSUMPTIONS = ["element symbols are upper case, 1-2 characters, without blanks o
 TECHNIQUE = ("Lean 4 proof (induction over digit strings, token lists, line lists and batches; refinement of the slice/"
              "split-based readers against the f-string writers; decide on the tables regenerated from the source) + "
              "text-level correspondence of writer and reader + write/read oracle")
-LEVEL_TEXT = ("Theorems over the character-level model, all inputs, no size bound: CTAB write->read round trip for V2000, "
-              "V3000 and every version argument (atoms in order, elements, charges, coordinates as 4-decimal scaled integers, "
-              "bonds in order with every expressible type, others as the default) for well-formed molecules (WFMol); V2000 "
-              "column layout, version switch, CHG batching; metadata-key, metadata and record-splitting round trips under "
-              "their stated hypotheses; bond/charge/RDKit table obligations and reader-slice = writer-field obligations on "
-              "tables regenerated from the source. Partial: the RDKit bridge (to_mol/from_mol, conformers) and the float32 "
-              "re-rounding of read coordinates are tied by the oracle only; Header round trip is correspondence/oracle only; "
-              "the rounding condition CoordOk of WFMol is proved to follow from the writer's digit guard for coordinates on "
-              "the float32 grid (C18_guard_implies_columns).")
+LEVEL_TEXT = ("Theorems over the character-level model, all inputs, no size bound: the full-file theorem C18_sdf_file_roundtrip "
+              "(records with pairwise different names, valid headers, well-formed non-empty molecules, valid metadata, no "
+              "'$$$$'-leading line: serialise -> split -> every record's header, molecule and metadata read back, same order), "
+              "composed from C18_sdf_record_roundtrip, C18_header_roundtrip (ValidHeader), C18_ctab_roundtrip (V2000, V3000 and "
+              "every version argument: atoms in order, elements, charges, coordinates as 4-decimal scaled integers, bonds in "
+              "order with every expressible type), C18_metadata_roundtrip, C18_key_roundtrip, C18_records; V2000 column "
+              "layout, version switch, CHG batching; the writer's digit guard implies the column condition on the float32 "
+              "grid; over Q: the decimal written is within 0.5e-4 of the float32 and a nearest-float32 re-rounding of it is "
+              "within 1e-4 + 2*eps (C18_coord_reround; IEEE nearest rounding of numpy/float() is assumed, eps = float64 "
+              "parse error); bond/charge/RDKit tables, V2000 reader slices = writer fields and header slices = header fields "
+              "as decide obligations on tables regenerated from the source. Partial: the RDKit bridge (to_mol/from_mol, "
+              "conformers) is an external library: tables proved, behaviour tied by the oracle only.")
 LEVEL_NOTE = ("modelled-not-verified: Python float/int formatting and parsing, str methods on ASCII, numpy U2/uint32 stores, "
               "BondList normalisation; RDKit external")
 
@@ -682,7 +686,7 @@ def _sdf_case(rng, n_rec):
         lines += _ref_v2000(mol, {}) if r["ver"] != "V3000" else _ref_v3000(mol, {}, rng)
         lines += _md_lines_ref(r["md"])
         lines.append("$$$$")
-    return {"kind": "sdf", "ops": ["\t".join(["SS"] + lines)], "records": recs}
+    return {"kind": "sdf", "ops": ["\t".join(["SS"] + lines), "\t".join(["SF"] + lines)], "records": recs}
 
 
 def cases(rng, tier):
@@ -908,6 +912,26 @@ def run_impl(case):
                         fs += ["H" + l for l in rec._header.splitlines()]
                         fs += ["C" + l for l in rec._ctab.splitlines()]
                         fs += ["M" + l for l in rec._metadata.splitlines()]
+                    out.append("ok " + "\t".join(fs))
+                elif f[0] == "SF":
+                    sd = SDFile.deserialize(_text(f[1:]))
+                    fs = []
+                    for name in sd.keys():
+                        rec = sd[name]
+                        h = rec.header
+                        a = rec.get_structure()
+                        md = rec.metadata
+                        t = "-" if h.time is None else f"{h.time.month},{h.time.day},{h.time.year % 100},{h.time.hour},{h.time.minute}"
+                        fs.append("N" + name)
+                        fs += ["h" + x for x in [h.mol_name, h.initials, h.program, t, h.dimensions, h.scaling_factors,
+                                                 h.energy, h.registry_number, h.comments]]
+                        atoms = ";".join(f"{a.element[i]},{int(a.charge[i])},{_fstr(a.coord[i, 0])},{_fstr(a.coord[i, 1])},{_fstr(a.coord[i, 2])}"
+                                         for i in range(a.array_length()))
+                        bonds = ";".join(f"{int(i)},{int(j)},{int(t_)}" for i, j, t_ in a.bonds.as_array())
+                        fs.append("A" + atoms + "|" + bonds)
+                        for k, v in md.items():
+                            fs.append("K " + _show_key(k))
+                            fs += ["V" + l for l in v.split("\n")]
                     out.append("ok " + "\t".join(fs))
                 elif f[0] == "HS":
                     t = None
